@@ -31,6 +31,7 @@ def plan(tier, seed):
     shards = []
     for cls in ("midpoint", "random", "large", "negzero"):
         shards += [{"cls": cls, "seed": seed, "shard": i, "n": 60} for i in range(k)]
+    shards += [{"cls": "mcp", "seed": seed, "shard": i, "n": 4} for i in range(3 if tier == "quick" else 60)]
     return shards
 
 
@@ -506,7 +507,104 @@ def check_all(txs, o, cnt, viols):
     return viols[before:]
 
 
+def run_mcp(desc):
+    """MCP front end: every monetary figure of calculate_report (all years and each year filter) is the computed value
+    rounded to pence half away from zero, explain_matching shows the computed values in full, and both list the same
+    years, disposals and legs as the library report - for several ledgers queried repeatedly in one session."""
+    from ..mcpdrv import Session, call, check_history
+    from ..gen.ledger import render_dsl
+    rng = rng_for(PROP, desc["seed"], "mcp", desc["shard"])
+    cnt = Counter()
+    viols = []
+    hashes = set()
+    sess = Session()
+    p = probe()
+    items = []
+    rid = 0
+    for _ in range(desc["n"]):
+        txs = midpoint_ledger(rng) if rng.random() < 0.5 else gen_case(rng, "random")
+        text = render_dsl(txs)
+        lib = p.one(lc.calc_case(txs, fx="bundled"))
+        if "ok" not in lib:
+            continue
+        rep = lc.parse_report(lib["ok"]["report"])
+        years = [y["start_year"] for y in rep["years"]]
+        reqs = []
+        for yf in [None] + years:
+            rid += 1
+            args = {"transactions": text}
+            if yf is not None:
+                args["year"] = yf
+            reqs.append((rid, "calc", yf, call(rid, "calculate_report", args)))
+        for d in lc.all_disposals(rep):
+            rid += 1
+            reqs.append((rid, "explain", d, call(rid, "explain_matching", {"transactions": text, "disposal_date": d["date"].isoformat(),
+                                                                             "ticker": d["ticker"]})))
+        rng.shuffle(reqs)
+        sess.send([r[3] for r in reqs])
+        items.append((txs, rep, reqs))
+    sess.wait_for([r[0] for _, _, reqs in items for r in reqs], 180)
+    end = sess.finish()
+    hv, stats, resp = check_history(sess, end)
+    for name, detail in hv:
+        viols.append({"clause": "mcp-" + name, "signature": "mcp-" + name, "detail": detail, "case": {"op": "mcp"}})
+    for txs, rep, reqs in items:
+        hashes.add(sha(txs)[:16])
+        ymap = {y["start_year"]: y for y in rep["years"]}
+        for rid_, kind, arg, req in reqs:
+            a = resp.get(Session.idkey(rid_))
+            if a is None:
+                continue
+            try:
+                body = json.loads(a["result"]["content"][0]["text"])
+            except Exception:
+                viols.append({"clause": "mcp-no-result-for-accepted-ledger", "signature": "mcp:no-result-for-accepted-ledger:" + kind,
+                              "detail": json.dumps(a)[:200], "case": {"op": "calc", "txs": txs}})
+                continue
+            vs = []
+            ck = Checker("mcp", cnt, vs)
+            if kind == "calc":
+                want_years = [ymap[arg]] if arg is not None else rep["years"]
+                got_years = body["tax_years"]
+                if [y["period"] for y in got_years] != [y["period"] for y in want_years]:
+                    vs.append({"clause": "year-list-differs", "signature": "mcp:year-list-differs",
+                               "detail": f"year filter {arg}: {[y['period'] for y in got_years]} vs {[y['period'] for y in want_years]}"})
+                else:
+                    for jy, y in zip(got_years, want_years):
+                        for nm in ("total_gain", "total_loss", "net_gain", "exempt_amount", "dividend_income", "dividend_tax_paid"):
+                            ck.money(f"{y['period']} {nm}", jy[nm], y[{"exempt_amount": "exempt_amount"}.get(nm, nm)], shape=False)
+                        if len(jy["disposals"]) != len(y["disposals"]):
+                            vs.append({"clause": "disposal-list-differs", "signature": "mcp:disposal-list-differs", "detail": y["period"]})
+                            continue
+                        for jd, d in zip(jy["disposals"], y["disposals"]):
+                            ck.money(f"{d['ticker']} {d['date']} gross", jd["gross_proceeds"], d["gross"], shape=False)
+                            ck.money(f"{d['ticker']} {d['date']} net", jd["proceeds"], d["net"], shape=False)
+                            for jm, l in zip(jd["matches"], d["legs"]):
+                                ck.money(f"{d['ticker']} {d['date']} {l['rule']} cost", jm["allowable_cost"], l["cost"], shape=False)
+                                ck.money(f"{d['ticker']} {d['date']} {l['rule']} gain", jm["gain_or_loss"], l["gain"], shape=False)
+                cnt["mcp_calculate_answers"] += 1
+            else:
+                d = arg
+                cnt["mcp_explain_answers"] += 1
+                if fr(body["quantity"]) != d["qty"] or fr(body["proceeds"]) != d["net"] or len(body["matches"]) != len(d["legs"]):
+                    vs.append({"clause": "explain-differs", "signature": "mcp:explain-differs",
+                               "detail": f"{d['ticker']} {d['date']}: quantity/proceeds/legs {body['quantity']} {body['proceeds']} {len(body['matches'])}"})
+                else:
+                    for m, l in zip(body["matches"], d["legs"]):
+                        cnt["mcp_figures"] += 2
+                        if fr(m["allowable_cost"]) != l["cost"] or fr(m["gain_or_loss"]) != l["gain"] or fr(m["quantity"]) != l["qty"]:
+                            vs.append({"clause": "explain-differs", "signature": "mcp:explain-figure-not-shown-in-full",
+                                       "detail": f"{d['ticker']} {d['date']} {l['rule']}: {m['allowable_cost']} vs {l['cost']}"})
+            for x in vs:
+                x["case"] = {"op": "calc", "txs": txs}
+                viols.append(x)
+    return {"evaluations": sum(len(r) for _, _, r in items), "nontrivial_hashes": hashes, "counters": cnt,
+            "violations": viols[:30], "samples": []}
+
+
 def run_shard(desc):
+    if desc["cls"] == "mcp":
+        return run_mcp(desc)
     rng = rng_for(PROP, desc["seed"], desc["cls"], desc["shard"])
     cnt = Counter()
     viols = []
@@ -547,7 +645,8 @@ def replay(case):
 
 THRESHOLDS = {"plain_midpoint_figures": 1000, "json_midpoint_figures": 1000, "pdf_midpoint_figures": 1000,
               "plain_negative_figures": 300, "pdf_negative_figures": 300, "pdf_figures_ge_1e6": 200,
-              "plain_figures_ge_1e6": 200, "pdf_foreign_echoes": 100, "reports": 1500}
+              "plain_figures_ge_1e6": 200, "pdf_foreign_echoes": 100, "reports": 1500,
+              "mcp_calculate_answers": 20, "mcp_explain_answers": 30, "mcp_figures": 300}
 RULE = ("ledgers constructed so that results sit on half-pence midpoints (x.xx5 prices/fees, unit quantities), zero and "
         "negative results, amounts of 1e6-1e10 pounds, 6-9 decimal quantities and foreign-currency echoes, plus random "
         "ledgers; every figure of the plain text, the JSON report and the PDF text runs (hook H1) is parsed back and "
